@@ -267,13 +267,18 @@ def with_read_styles(cases):
     operator!), rotating deterministically over the cases"""
     k = 0
     for c in cases:
-        if c["lines"][0].split()[3] not in CBAWAIT or any(l.startswith("read ") for l in c["lines"]):
+        ad = c["lines"][0].split()[3]
+        if ad not in CBAWAIT or any(l.startswith("read ") for l in c["lines"]):
             continue
         out = []
         for l in c["lines"]:
             out.append(l)
             if l == "g" or l.startswith("g "):
                 out.append("read " + READ_STYLES[k % 4])
+                # calling context: every other registration of callback_await / callback_await_alloc (owned awaitable, stateful
+                # temporary factory argument) is made from inside a running coroutine -> the helper's start is deferred
+                if ad == "cbawait" and (k // 4) % 2 == 1:
+                    out.append("ctx coro")
                 k += 1
         c["lines"] = out
     return cases
@@ -285,7 +290,8 @@ def parse(case, out):
             "to": hdr[7] if len(hdr) > 7 else None, "behav": hdr[8] if len(hdr) > 8 else None,
             "threads": [l.split() for l in case["lines"][1:] if l.split()[0] in ("g", "r", "d")],
             "pre": None, "imm": None, "cb": [], "conv": [], "events": [], "rets": {}, "outer": None, "final": None,
-            "deadlock": False, "crash": False, "assert": None, "ops": [], "cbthrow": False, "read": None}
+            "deadlock": False, "crash": False, "assert": None, "ops": [], "cbthrow": False, "read": None,
+            "coro": False, "dead_arg": 0, "caller_cont": 0}
     for l in case["lines"][1:]:
         w = l.split()
         if w[0] in ("pre", "imm"):
@@ -294,6 +300,8 @@ def parse(case, out):
             info["cbthrow"] = True
         elif w[0] == "read":
             info["read"] = w[1]
+        elif w[:2] == ["ctx", "coro"]:
+            info["coro"] = True
     for l in out:
         w = l.split()
         if not w:
@@ -312,6 +320,10 @@ def parse(case, out):
             info["outer"] = w[1:]
         elif w[0] == "final":
             info["final"] = dict(kv.split("=") for kv in w[1:])
+        elif w[0] == "dead-arg":
+            info["dead_arg"] += 1
+        elif w[0] == "caller-continues":
+            info["caller_cont"] += 1
         elif w[0] == "deadlock":
             info["deadlock"] = True
         elif w[0] == "crash":
@@ -382,7 +394,7 @@ class CallbackSuite(Suite):
         return n == 1 or sum(1 for a, b in zip(tids, tids[1:]) if a != b) >= 1
 
     def stats(self, cases, outs):
-        adapters, timing, outcomes, alloc, completer, nops, pairs, reads = {}, {}, {}, {}, {}, {}, {}, {}
+        adapters, timing, outcomes, alloc, completer, nops, pairs, reads, ctxs = {}, {}, {}, {}, {}, {}, {}, {}, {}
         switches = refused = ready_first = parked = 0
         flat = []
         for c in cases:
@@ -401,6 +413,9 @@ class CallbackSuite(Suite):
             i = parse(c, o)
             if i["read"]:
                 reads[i["read"]] = reads.get(i["read"], 0) + 1
+            if i["adapter"] == "cbawait":
+                k = "from a running coroutine (deferred helper start)" if i["coro"] else "from ordinary code"
+                ctxs[k] = ctxs.get(k, 0) + 1
             a = i["adapter"] + ("/" + i["shape"] + ":" + i["T"] + ">" + i["to"] + ":" + i["behav"] if i["adapter"] == "conv" else "")
             adapters[a] = adapters.get(a, 0) + 1
             alloc[i["alloc"]] = alloc.get(i["alloc"], 0) + 1
@@ -433,7 +448,7 @@ class CallbackSuite(Suite):
                         (n for n, x in enumerate(o) if x.startswith("s ")), default=-1) else ("registrar" if last == "0" else "other")
                     break
             completer[who] = completer.get(who, 0) + 1
-        return {"await_result_read_spelling(operations)": reads, "operations_per_case": nops, "reuse_consecutive_operations(registration outcome)": pairs,
+        return {"callback_await_calling_context(operations)": ctxs, "await_result_read_spelling(operations)": reads, "operations_per_case": nops, "reuse_consecutive_operations(registration outcome)": pairs,
                 "contract_violating_cases(callback throws)": sum(1 for c in cases if "cbthrow" in c["lines"]),
                 "adapters": adapters, "timing": timing, "source_outcome": outcomes, "allocator": alloc,
                 "registration_refused_by_cas": refused, "ready_at_await_ready": ready_first, "parked_then_resumed": parked,
@@ -467,8 +482,11 @@ class CallbackSuite(Suite):
         if i["deadlock"]:
             return ["hang: threads left blocked"]
         msgs = []
+        if i["dead_arg"]:
+            msgs.append("args: the awaited operation was constructed from an argument that had already been destroyed "
+                        "(the helper started after the caller's full expression and did not own a copy)")
         if i["final"] is None:
-            return ["final: no final state reported"]
+            return msgs + ["final: no final state reported"]
         ad, T = i["adapter"], i["T"]
         so = source_outcome(i)
         if so is None:
@@ -570,7 +588,9 @@ class C18(Spec):
     trusted_base = ["model lean/CoclsModel/Callback.lean tied to callback_awaiter.h / future.h / future_conv.h by step-for-step replay "
                     "(harness/h_callback.cpp, shim/verif_shim.h track_only) against lean/Drivers/C18.lean",
                     "C++20 coroutine machinery and libstdc++ as specified"]
-    assumptions = ["Pre: callbacks, converters' promise handling and factories do not throw out of the adapter "
+    assumptions = ["lvalue arguments of callback_await are stored by reference by design (scheduler::start relies on it); the theorem about argument "
+                   "liveness is about the copies the helper frame owns of rvalue arguments",
+                   "Pre: callbacks, converters' promise handling and factories do not throw out of the adapter "
                    "(callback_await_coro would call a throwing callback a second time from its catch block; documented contract)",
                    "an lvalue callback passed to callback_await is kept alive by the caller (it is stored by reference)",
                    "~promise is sequenced after every invocation of that promise object (C++ object lifetime)",
